@@ -75,11 +75,11 @@ var (
 		"ep-http:authorization_endpoint", "ep-http:token_endpoint", "ep-http:registration_endpoint", "ep-http:introspection_endpoint", "ep-lookalike:token_endpoint",
 		"ep-script:authorization_endpoint", "ep-script:token_endpoint", "ep-script:jwks_uri", "ep-script:registration_endpoint", "ep-script:service_documentation",
 		"ep-script:op_policy_uri", "ep-script:op_tos_uri", "ep-script:revocation_endpoint", "ep-script:introspection_endpoint"}
-	c15ASMOk   = []string{"ok", "ok", "ok", "iss-slash", "ok-loopback-ep"}
+	c15ASMOk = []string{"ok", "ok", "ok", "iss-slash", "ok-loopback-ep"}
 	// opaque forms, and authority forms whose host is a loopback address (a loopback host does not make a script URL safe)
 	c15Schemes = []string{"javascript:alert(1)//", "data:text/html,x//", "vbscript:msgbox//", "JavaScript:alert(1)//", "DATA:text/html,",
 		"javascript://127.0.0.1/%0Aalert(1)//", "data://[::1]/text/html,x//", "vbscript://localhost/msgbox//"}
-	c15Marker  = regexp.MustCompile(`q[pad][0-9]+q`)
+	c15Marker = regexp.MustCompile(`q[pad][0-9]+q`)
 )
 
 func genC15(r *vh.Rand, idx int) c15Spec {
@@ -220,9 +220,9 @@ type c15Attempt struct {
 }
 
 type c15World struct {
-	c    *vh.Case
-	spec c15Spec
-	mu   sync.Mutex
+	c          *vh.Case
+	spec       c15Spec
+	mu         sync.Mutex
 	redirected bool
 
 	serverURL   *url.URL
